@@ -1528,18 +1528,22 @@ def replay(ctx, payload):
 
 
 MANIFEST = dict(
-    level_text="Lean 4 theorems about an executable, table-driven model of ANTLR's rewritten left-recursive rule `expr` "
-               "(precedence climbing with the precpred / right-hand levels of the generated parser), a Modelica-grammar "
-               "printer and the listener's tree building: parse(print e) is the expected tree for every expression tree of "
-               "any depth and any redundant parenthesisation, and that tree has the value of the source tree in every "
-               "interpretation satisfying (-a)*b = -(a*b), (-a)/b = -(a/b); exact values of decimal/scientific literals. "
-               "Tied to /repo every run by a translator of the generated parser's table (source and deserialised ATN) and a "
-               "differential correspondence of model parser vs real parser on generated texts, plus a direct "
-               "value oracle on the real parser.",
-    level_note="Trusted: Lean kernel + standard axioms; the harness (its Modelica printer is cross-checked against the "
-               "verified Lean printer on every case); ANTLR's prediction engine. The model, not the Python, is what the "
-               "theorems are about.",
-    technique="Lean 4 proof (structural induction, fuel monotonicity, absorption lemma for precedence climbing) + "
-              "source translator with decidable obligations + model/implementation correspondence + exact-value oracle",
+    level_text="Lean 4 theorems about (a) an executable, table-driven model of ANTLR's rewritten left-recursive rule `expr` "
+               "(precedence climbing with the precpred / right-hand levels of the generated parser) plus the listener's tree "
+               "building, and (b) a recursive-descent reference reader transcribed from the Modelica specification's grammar "
+               "B.2.7: for EVERY token string the specification's expression grammar derives (single-expression fragment, any "
+               "depth, any redundant parentheses), pymoca's parser accepts it and its tree has the value of the specification's "
+               "reading in every interpretation with (-a)*b = -(a*b), (-a)/b = -(a/b) (`every_text`; round trips `parse_mprint`, "
+               "`spec_reads_source`; left associativity, ^ over unary minus, relations over not, not over and, and over or as "
+               "corollaries); exact values of decimal/scientific literals. Tied to /repo every run by a translator of the "
+               "generated parser's table (Python source and deserialised ATN, obligations table_ok/atn_ok) and a differential "
+               "correspondence of model parser vs real parser on generated and malformed texts, plus a direct value oracle on "
+               "the real parser against an independent Python transcription of the specification's grammar.",
+    level_note="Trusted: Lean kernel + standard axioms; that `Model/ExprSpec.lean` transcribes B.2.7 (one case per nonterminal); "
+               "the harness (its printer and its reference reader are cross-checked against the Lean ones on every case); "
+               "ANTLR's prediction engine following the ATN. The model, not the Python, is what the theorems are about.",
+    technique="Lean 4 proof (structural induction, fuel monotonicity, absorption lemma for precedence climbing, soundness of "
+              "the reference reader by induction on fuel) + source translator with decidable obligations + "
+              "model/implementation correspondence + exact-value oracle",
 )
 READY = True
